@@ -37,4 +37,10 @@ impl PartialOrd for RationalU256 {
     #[verifier::external_body] fn partial_cmp(&self, o: &RationalU256) -> (r: Option<Ordering>) { unimplemented!() }
     #[verifier::external_body] fn lt(&self, o: &RationalU256) -> (r: bool)
         ensures forall|n1: nat, d1: nat, n2: nat, d2: nat| #[trigger] rep(self, n1, d1) && #[trigger] rep(o, n2, d2) ==> r == (n1 * d2 < n2 * d1) { unimplemented!() }
+    #[verifier::external_body] fn le(&self, o: &RationalU256) -> (r: bool)
+        ensures forall|n1: nat, d1: nat, n2: nat, d2: nat| #[trigger] rep(self, n1, d1) && #[trigger] rep(o, n2, d2) ==> r == (n1 * d2 <= n2 * d1) { unimplemented!() }
+    #[verifier::external_body] fn gt(&self, o: &RationalU256) -> (r: bool)
+        ensures forall|n1: nat, d1: nat, n2: nat, d2: nat| #[trigger] rep(self, n1, d1) && #[trigger] rep(o, n2, d2) ==> r == (n1 * d2 > n2 * d1) { unimplemented!() }
+    #[verifier::external_body] fn ge(&self, o: &RationalU256) -> (r: bool)
+        ensures forall|n1: nat, d1: nat, n2: nat, d2: nat| #[trigger] rep(self, n1, d1) && #[trigger] rep(o, n2, d2) ==> r == (n1 * d2 >= n2 * d1) { unimplemented!() }
 }
